@@ -3,5 +3,5 @@ import Gomjml.Props.C09
 #print axioms Gomjml.Props.C09.C09_source_independent
 #print axioms Gomjml.Props.C09.C09_noglobal_partial
 #print axioms Gomjml.Props.C09.C09_raw_partial
-#print axioms Gomjml.Props.C09.C09_sites_partial
+#print axioms Gomjml.Props.C09.C09_sites
 #print axioms Gomjml.Props.C09.C09_written_reads
